@@ -15,7 +15,7 @@ GROWTH = [{"ops": [{"op": "add", "name": f"grow{i:02d}", "size": ["mini", "cutof
 
 
 FIXTURES = ["/repo/functest/packages/dummy.msi", "synth:512:mixed", "synth:512:nomini", "synth:512:fulldir", "synth:512:gaps",
-            "synth:4096:mixed", "synth:4096:nomini"]
+            "synth:4096:mixed", "synth:4096:nomini", "synth:512:nested", "synth:4096:nested"]
 
 
 def one_shard(vh, behs, d, i, fixture=FIXTURES[0]):
@@ -117,7 +117,7 @@ def run(t):
                        "through the first and second DIFAT sector (table-summary invariants in TLC, chains by the reader); after EVERY step the file is projected by an independent reader and all CfbInv "
                        "invariants + StreamsPreserved are evaluated by TLC. non-trivial = history with at least one operation")
     run.cov["exhaustive"] = False
-    run.assumptions += ["nested storages are preserved but never modified; files beyond 109 FAT sectors are too large for CfbInv's chain walks in "
+    run.assumptions += ["nested storages (synth:*:nested: class ids, two levels, empty storages) are preserved but never modified; files beyond 109 FAT sectors are too large for CfbInv's chain walks in "
                         "TLC: their chains are validated by the harness reader and only the table accounting goes to TLC",
                         "trusted: the harness CFB writer and reader (every synthesised input satisfies all CfbInv invariants before relic touches it)", "zero-length added streams are outside the quantifier (comdoc panics on them: see DESIGN)"]
     return run.finish()
